@@ -682,7 +682,7 @@ def attach_idx(hub=HUB, sample_every=1):
 # PURE -- exporting never mutates (C13)
 # =============================================================================================
 def pure_snapshot(doc):
-    return (strict.ordered(doc), strict.nsview(doc))
+    return (strict.ordered(doc), strict.nsview(doc), strict.printed(doc))
 
 
 def pure_compare(before, after):
@@ -705,6 +705,13 @@ def pure_compare(before, after):
                 msgs.append("namespaces of %r changed: %r -> %r" % (k1, v1, v2))
         if len(before[1]) != len(after[1]):
             msgs.append("number of scopes changed")
+    if len(before) > 2 and before[2] != after[2] and not msgs:
+        for (k1, r1), (k2, r2) in zip(before[2], after[2]):
+            if (k1, r1) != (k2, r2):
+                d1 = [x for x in r1 if x not in r2][:1]
+                d2 = [x for x in r2 if x not in r1][:1]
+                msgs.append("printed names changed in %r (same URIs): %s -> %s" % (k1, d1, d2))
+                break
     return msgs
 
 
